@@ -722,9 +722,9 @@ func c06Scenarios(thorough bool) []c06Scenario {
 
 func c06Run(c *core.Ctx) {
 	scs := c06Scenarios(c.Thorough())
-	bound := 2
+	bound := 3
 	if c.Thorough() {
-		bound = 3
+		bound = 4
 	}
 	c.Info("scenarios", fmt.Sprint(len(scs)))
 	c.Info("preemption_bound", fmt.Sprint(bound))
@@ -761,7 +761,7 @@ func c06Run(c *core.Ctx) {
 		for _, t := range sc {
 			ops += len(t)
 		}
-		if ops <= 2 && !st.Truncated {
+		if ops <= 3 && !st.Truncated {
 			st2 := run(-1, 150000)
 			if !st2.Truncated {
 				unboundedDone++
